@@ -1,17 +1,23 @@
 use crate::engine::Engine;
 
 pub mod c04;
+pub mod c06;
 pub mod c07;
+pub mod c09;
+pub mod c10;
 pub mod c19;
 
 pub fn run(id: &str, e: &Engine) -> bool {
 	match id {
 		"C04" => c04::check(e),
+		"C06" => c06::check(e),
 		"C07" => c07::check(e),
+		"C09" => c09::check(e),
+		"C10" => c10::check(e),
 		"C19" => c19::check(e),
 		_ => return false,
 	}
 	true
 }
 
-pub const ALL: &[&str] = &["C04", "C07", "C19"];
+pub const ALL: &[&str] = &["C04", "C06", "C07", "C09", "C10", "C19"];
